@@ -6,9 +6,11 @@
    - after the last byte the iterator returns None on every further call;
    - [C07_size]: a frame is a multiple of four bytes long, at least |p| + 16 and at most
      2|p| + 19 bytes - so a fixed buffer of 2|p| + 19 bytes always suffices for the buffer encoder.
+   - [C07_bytes]: the frame of a byte string is a byte string (every element < 256, including the pad
+     count and both CRC octets) - the specification over unbounded N needs no truncation to u8.
    This file contains the statements only. *)
 Require Export Sml.Base.Prelude Sml.Base.Crc Sml.Spec.Frame Sml.Model.Decode Sml.Model.Encode.
-Require Export Sml.Proofs.EncodeCorrect Sml.Proofs.FrameSize.
+Require Export Sml.Proofs.EncodeCorrect Sml.Proofs.FrameSize Sml.Proofs.FrameBytes.
 
 Theorem C07_format : forall p : list byte,
   enc_collect p = frame p /\
@@ -38,6 +40,10 @@ Proof.
   destruct (frame_length p) as (_ & _ & B). destruct (Nat.leb_spec (length (frame p)) n); [reflexivity|lia].
 Qed.
 Print Assumptions C07_buffer_suffices.
+
+Theorem C07_bytes : forall p : list byte, bytes_ok p -> bytes_ok (frame p).
+Proof. exact frame_bytes_ok. Qed.
+Print Assumptions C07_bytes.
 
 (* the specification is the wire format the standard describes (concrete vectors) *)
 Example C07_vector_basic :
